@@ -79,8 +79,8 @@ def parts(tier):
     return [
         Part("small", strategy=lambda t: common.model_case(guard=1500 if t == "quick" else 6000, depth=3 if t == "quick" else 4,
                                                            profile="small"),
-             check=check_model, quick=(6, 150), thorough=(12, 2500)),
+             check=check_model, quick=(6, 400), thorough=(12, 2500)),
         Part("large", strategy=lambda t: common.model_case(guard=1500 if t == "quick" else 6000, depth=3, profile="large",
                                                            max_bool=3, max_int=3),
-             check=check_model, quick=(2, 120), thorough=(4, 2500)),
+             check=check_model, quick=(2, 300), thorough=(4, 2500)),
     ]
